@@ -82,7 +82,7 @@ def observe_open(machine, blocks, params, res, failures, label, min_height, allo
             ref = observe.ref_at(blocks, height, activation)
             try:
                 obs = observe.observe(w, ref, what=WHAT)
-            except world.ReaderBlocked:
+            except (world.ReaderBlocked, observe.ReadFailed):
                 failures.append((f'{label}:reader-retries-forever', dict(height=height)))
             except Exception as e:      # noqa
                 failures.append((f'{label}:read-failed', dict(height=height, error=repr(e))))
@@ -116,7 +116,7 @@ def resume_and_compare(machine, blocks, params, flush_schedule, obs_final, ref_f
             return
         try:
             obs = observe.observe(w, ref_final, what=WHAT)
-        except world.ReaderBlocked:
+        except (world.ReaderBlocked, observe.ReadFailed):
             failures.append((f'{label}:resume-reader-retries-forever', {}))
             return
         if obs != obs_final:
